@@ -430,6 +430,55 @@ fn interop(scn: &Scn, a: &World, ctx_b: &Arc<HeContext>, res: &mut Res) -> Resul
         }
     }
 
+    if a.uses_keyswitching() {
+        // 3b. seeded key-switching key towards another secret key: apply_keyswitching at the peer
+        let other = KeyGenerator::new(a.ctx.clone());
+        let ksk = a.keygen.create_keyswitching_key(other.secret_key(), true);
+        let kskx = match Obj::KSwitch(ksk.clone()).expected_restored(&a.ctx) {
+            Obj::KSwitch(k) => k,
+            _ => unreachable!(),
+        };
+        let ct = a.encryptor.encrypt_new(&p1);
+        match (send(&Obj::KSwitch(ksk), &a.ctx, ctx_b, &mut rng), send(&Obj::Ct(ct.clone()), &a.ctx, ctx_b, &mut rng)) {
+            (Ok(Obj::KSwitch(kb)), Ok(Obj::Ct(ctb))) => {
+                let rb = catch_res(|| eval_b.apply_keyswitching_new(&ctb, &kb));
+                let ra = catch_res(|| a.evaluator.apply_keyswitching_new(&ct, &kskx));
+                match (rb, ra) {
+                    (Ok(rb), Ok(ra)) => {
+                        if ser_ct(&rb, ctx_b) != ser_ct(&ra, &a.ctx) {
+                            res.bad("interop", "keyswitch-differs", format!("{}: key switching with the deserialized key differs from using the locally expanded key", scheme));
+                        }
+                        res.count("interop.keyswitch", 1);
+                    }
+                    (Err(pb), Ok(_)) => res.bad("interop", "keyswitch-panicked-at-peer", format!("{}: {}", scheme, pb)),
+                    _ => {}
+                }
+            }
+            (Err(e), _) | (_, Err(e)) => res.bad("interop", "transfer-failed", format!("{} key-switching key: {}", scheme, e)),
+            _ => {}
+        }
+        // 3c. a product computed at the peer from deserialized operands, sent back and compared
+        let ca = a.encryptor.encrypt_symmetric_new(&p1);
+        let cax = objs::expand_ct(&ca, &a.ctx);
+        let cb2 = a.encryptor.encrypt_new(&p2);
+        if let (Ok(Obj::Ct(xb)), Ok(Obj::Ct(yb))) = (send(&Obj::Ct(ca), &a.ctx, ctx_b, &mut rng), send(&Obj::Ct(cb2.clone()), &a.ctx, ctx_b, &mut rng)) {
+            let pb = catch_res(|| eval_b.multiply_new(&xb, &yb));
+            let pa = catch_res(|| a.evaluator.multiply_new(&cax, &cb2));
+            if let (Ok(pb), Ok(pa)) = (pb, pa) {
+                match send(&Obj::Ct(pb), ctx_b, &a.ctx, &mut rng) {
+                    Ok(Obj::Ct(back)) => {
+                        if ser_ct(&back, &a.ctx) != ser_ct(&pa, &a.ctx) {
+                            res.bad("interop", "multiply-differs", format!("{}: the size-3 product computed by the peer from deserialized operands differs from the local product of the expanded operands", scheme));
+                        }
+                        res.count("interop.multiply_roundtrip", 1);
+                    }
+                    Ok(_) => {}
+                    Err(e) => res.bad("interop", "result-transfer-failed", format!("{} product: {}", scheme, e)),
+                }
+            }
+        }
+    }
+
     // 4. seeded public key: encryption at B with the deserialized key == encryption at A with the expanded key
     //    under the same entropy stream; A finally decrypts what B encrypted
     let pks = a.keygen.create_public_key(true);
